@@ -58,6 +58,9 @@ let run_case toks obs =
           else if bad <> [] then
             Printf.sprintf "PROPFAIL %s sig=anomaly-disturbs-traffic a valid call issued around a not-found / stray message did not complete as expected (%s)" id (List.hd bad)
           else begin
+            if kv "alone" k = "1" && List.mem "timeout/done" evs then
+              Printf.sprintf "PROPFAIL %s sig=fatal-not-fatal:alone a framing/decoding violation did not stop the transport by itself (it was still up after the bound, before the stream ended)" id
+            else
             match kv "expectend" k, last_obs with
             | "open", Some (true, _) -> Printf.sprintf "PROPFAIL %s sig=non-fatal-was-fatal the transport stopped although only not-found / stray messages were received" id
             | "stopped", Some (false, _) -> Printf.sprintf "PROPFAIL %s sig=fatal-not-fatal the transport is still up after a framing/decoding violation, read error or end of stream" id
